@@ -39,11 +39,66 @@ def baseline(wt):
     return out
 
 
+def affected_tests(wt, patch):
+    """test files of the repository whose import closure (static `import` / `from … import` statements, followed through the package)
+    contains a file the patch touches — the only tests whose outcome the patch can change"""
+    import ast
+    import re
+    changed = set(re.findall(r"^\+\+\+ b/(\S+)", open(patch).read(), re.M))
+
+    def deps(path):
+        out = set()
+        try:
+            tree = ast.parse(open(os.path.join(wt, path)).read())
+        except (OSError, SyntaxError):
+            return out
+        pkg = os.path.dirname(path).split("/")
+        for n in ast.walk(tree):
+            mods = []
+            if isinstance(n, ast.Import):
+                mods = [a.name for a in n.names]
+            elif isinstance(n, ast.ImportFrom):
+                base = (pkg[:len(pkg) - (n.level - 1)] if n.level else [])
+                m = ".".join(base + ([n.module] if n.module else []))
+                mods = [m] + [m + "." + a.name for a in n.names]
+            for m in mods:
+                for cand in (m.replace(".", "/") + ".py", m.replace(".", "/") + "/__init__.py"):
+                    if os.path.exists(os.path.join(wt, cand)):
+                        out.add(cand)
+        return out
+    memo = {}
+
+    def closure(path):
+        if path in memo:
+            return memo[path]
+        memo[path] = seen = {path}
+        stack = [path]
+        while stack:
+            for d in deps(stack.pop()):
+                if d not in seen:
+                    seen.add(d)
+                    stack.append(d)
+        return seen
+    tests = []
+    for root, _, files in os.walk(os.path.join(wt, "tests")):
+        for fn in files:
+            if fn.endswith("_test.py") or fn.startswith("test_"):
+                rel = os.path.relpath(os.path.join(root, fn), wt)
+                if closure(rel) & changed:
+                    tests.append(rel)
+    return sorted(tests), sorted(changed)
+
+
 def passed(txt):
     return sorted(l.split(" ", 1)[1].strip() for l in txt.splitlines() if l.startswith("PASSED "))
 
 
+PAIR = None     # (framework worktree, library worktree): checks run there with PMS_REPO instead of in /verif against /repo
+
+
 def run_checks(dest, props, tier):
+    if PAIR:
+        return _run_checks(dest, props, tier)
     import fcntl
     lock = open("/root/work/repo.lock", "w")
     fcntl.flock(lock, fcntl.LOCK_EX)      # /repo's working tree is shared with tools/mergeprop.sh
@@ -54,14 +109,21 @@ def run_checks(dest, props, tier):
 
 
 def _run_checks(dest, props, tier):
-    rc, out = sh("git -C /repo status --porcelain --untracked-files=no")
-    assert out.strip() == "", "/repo not clean: " + out
-    rc, out = sh(f"git -C /repo apply {dest}/patch.diff")
-    assert rc == 0, "patch does not apply to /repo: " + out
+    global VERIF
+    REPO = "/repo"
+    env = None
+    if PAIR:
+        VERIF, REPO = PAIR
+        env = dict(os.environ, PMS_REPO=REPO)
+        sh(f"git -C {REPO} checkout -q -- .")
+    rc, out = sh(f"git -C {REPO} status --porcelain --untracked-files=no")
+    assert out.strip() == "", f"{REPO} not clean: " + out
+    rc, out = sh(f"git -C {REPO} apply {dest}/patch.diff")
+    assert rc == 0, f"patch does not apply to {REPO}: " + out
     res = []
     try:
         for p in props:
-            rcc, oc = sh(f"./check {p} --tier {tier}", cwd=VERIF, timeout=7200)
+            rcc, oc = sh(f"./check {p} --tier {tier}", cwd=VERIF, timeout=7200, env=env)
             lines = [l for l in oc.splitlines() if l.startswith("VIOLATION") or l.startswith("  ->") or l.startswith("KNOWN") or l.startswith("INFRA")]
             rp = None
             for l in lines:
@@ -70,16 +132,16 @@ def _run_checks(dest, props, tier):
                     break
             rep = None
             if rp and os.path.exists(os.path.join(VERIF, rp)):
-                r1, o1 = sh(f"./check {p} --replay {rp}", cwd=VERIF, timeout=1800)
+                r1, o1 = sh(f"./check {p} --replay {rp}", cwd=VERIF, timeout=1800, env=env)
                 rep = {"on_mutant_rc": r1, "tail": o1.strip().splitlines()[-1:] }
             res.append({"cmd": f"./check {p} --tier {tier}", "rc": rcc, "lines": lines[:8], "replay": rp, "replay_on_mutant": rep,
                         "caught": rcc == 1 and any(l.startswith("VIOLATION") for l in lines),
                         "with_failing_input": any(l.startswith("VIOLATION") and "no-failing-input-found" not in l for l in lines)})
     finally:
-        sh("git -C /repo checkout -- .")
+        sh(f"git -C {REPO} checkout -- .")
     # back on the clean tree: the check must be green again (this also restores regenerated Lean files and evidence)
     for p in props:
-        rcc, oc = sh(f"./check {p} --tier quick", cwd=VERIF, timeout=7200)
+        rcc, oc = sh(f"./check {p} --tier quick", cwd=VERIF, timeout=7200, env=env)
         for r in res:
             if r["cmd"].split()[1] == p:
                 r["clean_tree_rc_after_revert"] = rcc
@@ -87,7 +149,7 @@ def _run_checks(dest, props, tier):
     for r in res:
         if r["replay"] and os.path.exists(os.path.join(VERIF, r["replay"])):
             p = r["cmd"].split()[1]
-            r0, o0 = sh(f"./check {p} --replay {r['replay']}", cwd=VERIF, timeout=1800)
+            r0, o0 = sh(f"./check {p} --replay {r['replay']}", cwd=VERIF, timeout=1800, env=env)
             r["replay_on_clean_rc"] = r0
     return res
 
@@ -100,8 +162,13 @@ def main():
     ap.add_argument("--tier", default="quick")
     ap.add_argument("--also", nargs="*", default=[])
     ap.add_argument("--skip-suite", action="store_true")
+    ap.add_argument("--affected-only", action="store_true", help="run only the test files whose import closure contains a patched file")
+    ap.add_argument("--pair", help="run the checks in the builder worktrees /root/work/dev<pair> + /root/work/repo-dev<pair> (PMS_REPO) instead of /verif + /repo")
     ap.add_argument("--confirm-only", action="store_true", help="phase A only: confirm in a scratch worktree, store; do not touch /repo")
     a = ap.parse_args()
+    global PAIR
+    if a.pair is not None:
+        PAIR = (f"/root/work/dev{a.pair}", f"/root/work/repo-dev{a.pair}")
     dest = os.path.join(VERIF, "seeded", a.seed_id)
     mp = os.path.join(dest, "meta.json")
     if a.recheck:
@@ -132,10 +199,21 @@ def main():
             rc1, o1 = sh(f"{PY} {dest}/demo.py", cwd=wt, env=env)
             meta["ran"].append({"cmd": "demo with patch", "rc": rc1, "tail": o1[-400:]})
             if not a.skip_suite:
-                rc, out = sh(f"{VERIF}/tools/runtests.sh {wt}")
-                pb, pp = passed(base), passed(out)
-                meta["suite"] = {"cmd": "tools/runtests.sh <worktree> (whole suite)", "baseline_passed": len(pb), "patched_passed": len(pp),
-                                 "lost": sorted(set(pb) - set(pp))}
+                if a.affected_only:
+                    tests, changed = affected_tests(wt, f"{dest}/patch.diff")
+                    rc, out = sh(f"{VERIF}/tools/runtests.sh {wt} {' '.join(tests)}") if tests else (0, "")
+                    pref = tuple(t[:-3].replace("/", ".") if False else t for t in tests)
+                    pb = [x for x in passed(base) if x.split("::")[0] in tests]
+                    pp = passed(out)
+                    meta["suite"] = {"cmd": "tools/runtests.sh <worktree> <the test files whose import closure contains a patched file>",
+                                     "patched_files": changed, "test_files_run": tests, "baseline_passed": len(pb), "patched_passed": len(pp),
+                                     "lost": sorted(set(pb) - set(pp)),
+                                     "note": "the other test files import none of the patched files, their outcome cannot change"}
+                else:
+                    rc, out = sh(f"{VERIF}/tools/runtests.sh {wt}")
+                    pb, pp = passed(base), passed(out)
+                    meta["suite"] = {"cmd": "tools/runtests.sh <worktree> (whole suite)", "baseline_passed": len(pb), "patched_passed": len(pp),
+                                     "lost": sorted(set(pb) - set(pp))}
                 meta["tests_same"] = set(pb) <= set(pp)
             meta["confirmed"] = (rc0 == 0 and rc1 != 0)
         finally:
